@@ -6,7 +6,8 @@
    and FindModuleByNamespace in modules.go; [path_entries], [ro_text], [ro_up_pinned], [ntbo], [ns_spec],
    [unstamped], [graft], [inst_spec] are the reference semantics in Spec/C12.v.  T1-T3 hold for EVERY forest. *)
 From Coq Require Import List NArith Bool Ascii String.
-From GY Require Import Model.Schema Spec.C17 Spec.C12 Proofs.FindProofs Proofs.ConfigNsProofs.
+From GY Require Import Model.Schema Spec.C17 Spec.C12 Proofs.FindProofs Proofs.ConfigNsProofs Proofs.AttributionProofs.
+From GY Require Spec.C07 Proofs.AugmentProofs.
 Import ListNotations.
 Local Open Scope N_scope.
 
@@ -120,6 +121,64 @@ Theorem C12_same_stamp_same_namespace : forall SC F mn ps s root w x, lookup mn 
   locate root ps = Some w -> locate w [s] = Some x -> e_ns x = e_ns w \/ e_ns x = None ->
   Namespace SC F (mn, ps ++ [s]) = Namespace SC F (mn, ps).
 Proof. exact Namespace_same_stamp. Qed.
+
+(* ------------------------------------------------------------------ T2 (b) END TO END through Process *)
+(* For every module set WITHOUT deviation statements whose Process is clean (module names distinct, the visiting order
+   contains every module that declares augments):
+   (i)  every augment statement a of every module or submodule A of the set is [attributed]: there is a map phi from
+        the paths inside a's body to positions of the result such that every node the body defines -- each top-level
+        child k and everything below it, whatever uses it expands -- is present at phi (k :: r) with the name and kind it
+        was written with and Namespace there is the namespace of the module that owns A.  (The positions are the
+        target the augment's path had when it was applied, followed by k :: r, moved by every later FixChoice:
+        see C12_fix_choice_carries.)
+   (ii) every namespace stamp of the result sits on a node named like a top-level child of the body of an augment of a
+        module with that owner namespace (the child itself or the case FixChoice put around it): nothing else is ever
+        stamped. *)
+Theorem C12_process_attribution : forall SC ic ins order F, Process SC ic ins order = ROk F ->
+  NoDup (map m_name SC) -> AugmentProofs.covers (C07.pend0 SC) order -> AugmentProofs.no_deviations SC ->
+  (forall a, aug_of SC a -> attributed SC F a) /\ all_trees (from_augment SC) F.
+Proof. exact Process_attribution. Qed.
+
+(* (ii) read at a position: Namespace is the namespace of the module owning the tree -- nodes from the module's own
+   statements, its submodules', any grouping they use, and the implicit cases around such nodes -- unless a node on
+   the path carries a stamp; then it is the owner namespace of a module that declares an augment whose body has a
+   top-level child named like the nearest stamped node *)
+Theorem C12_namespace_provenance : forall SC F mn steps root, all_trees (from_augment SC) F -> lookup mn F = Some root ->
+  Namespace SC F (mn, steps) = tree_ns SC mn \/
+  exists a k c s pre x, aug_of SC a /\ lookup k (a_dir a) = Some c /\ locate root (s :: pre) = Some x /\
+                        e_name x = e_name c /\ e_ns x = Some (owner_ns SC (a_mod a)) /\
+                        Namespace SC F (mn, steps) = owner_ns SC (a_mod a).
+Proof. exact Namespace_provenance. Qed.
+
+(* the stages: FixChoice on a forest carries every node to [fix_pos] with its attributes and namespace; so do a
+   graft and the on-demand creation of an input or output (at the same position); what is attributed stays
+   attributed in every later stage *)
+Theorem C12_fix_choice_carries : forall SC n F, carries SC F (fix_forest n F) (fix_pos n F).
+Proof. exact carries_fix. Qed.
+
+Theorem C12_update_carries : forall SC F mn ps te f, locate_pos F (mn, ps) = Some te -> keeps_all te f ->
+  carries SC F (update_pos F (mn, ps) f) (fun q => q).
+Proof. exact carries_update. Qed.
+
+Theorem C12_attributed_carried : forall SC F F' psi a, carries SC F F' psi -> attributed SC F a -> attributed SC F' a.
+Proof. exact attributed_carries. Qed.
+
+(* one clean graft attributes its augment *)
+Theorem C12_graft_attributed : forall SC F mn ps te d a, good SC a -> locate_pos F (mn, ps) = Some te ->
+  e_dir te = Some d -> snd (merge_dir (d, false) None (a_dir a)) = false ->
+  attributed SC (graft F (mn, ps) (owner_ns SC (a_mod a)) (a_dir a)) a.
+Proof. exact graft_attributed. Qed.
+
+(* deviate statements never touch a node's stamp (the deviation stage is otherwise outside these theorems) *)
+Theorem C12_deviate_keeps_stamp : forall r dv t old,
+  e_ns (fst (apply_add_replace r dv t)) = e_ns t /\ e_ns (fst (apply_delete dv t)) = e_ns t /\
+  e_ns (keep_children old t) = e_ns t.
+Proof. intros. exact (conj (apply_add_replace_ns r dv t) (conj (apply_delete_ns dv t) (keep_children_ns old t))). Qed.
+
+(* (iii) source side of T1: the config (and name) of the entry ToEntry builds for a statement are the statement's *)
+Theorem C12_entry_config_is_statement_config : forall SC f c busy n,
+  e_cfg (fst (to_entry SC (S f) c busy n)) = stmt_cfg n /\ e_name (fst (to_entry SC (S f) c busy n)) = stmt_name n.
+Proof. exact to_entry_cfg. Qed.
 
 (* T3: InstantiatingModule names the module whose namespace Namespace returned when exactly one module of the set
    has it; it fails when none has it and when two or more have it *)
@@ -265,3 +324,25 @@ Proof. vm_compute. repeat split. Qed.
 Example C12_ex_implicit_case_namespace :
   obs [C "ch"; C "ag"] = (s "urn:b", false, Some (s "b")) /\ obs [C "ch"; C "ag"; C "ag"] = (s "urn:b", false, Some (s "b")).
 Proof. vm_compute. split; reflexivity. Qed.
+
+(* the hypotheses of C12_process_attribution hold for the example set, and its conclusion read at one augment *)
+Example C12_ex_attribution_hyp : NoDup (map m_name ex_SC) /\ AugmentProofs.covers (C07.pend0 ex_SC) ex_order /\
+  AugmentProofs.no_deviations ex_SC.
+Proof.
+  split; [|split].
+  - repeat constructor; cbn; intros H; repeat (destruct H as [H|H]; [discriminate|]); exact H.
+  - apply AugmentProofs.covers_all. intros m [H|[H|[H|[H|[]]]]]; subst m; vm_compute; tauto.
+  - intros m [H|[H|[H|[H|[]]]]]; subst m; reflexivity.
+Qed.
+
+Example C12_ex_attribution : forall a, aug_of ex_SC a -> attributed ex_SC ex_F a.
+Proof.
+  destruct C12_ex_attribution_hyp as (H1 & H2 & H3).
+  exact (proj1 (Process_attribution ex_SC false false ex_order ex_F C12_ex_processed H1 H2 H3)).
+Qed.
+
+Example C12_ex_aug_of : exists a, aug_of ex_SC a /\ a_mod a = ex_b /\ lookup (s "ag") (a_dir a) <> None.
+Proof.
+  eexists. split; [exists ex_b; split; [right; right; right; left; reflexivity|right; left; reflexivity]|].
+  split; [reflexivity|vm_compute; discriminate].
+Qed.
